@@ -303,7 +303,7 @@ Definition rule_sub (kids : list xml) (i : nat) : result node :=
 Lemma fide_parse_rule_eq : forall tag a text kids,
   fide_parse_rule (Elem tag a text kids) =
   if String.eqb tag fide_TAG_VAR then
-    match text with Some t => Ok (term t) | None => Err OtherExn end
+    match text with Some t => Ok (term t) | None => Err FlamaException end
   else if String.eqb tag fide_TAG_NOT then
     match rule_sub kids 0 with Err e => Err e | Ok a => Ok (un NOT a) end
   else if String.eqb tag fide_TAG_IMP then
@@ -1559,3 +1559,12 @@ Print Assumptions fide_no_constraints.
 Print Assumptions fide_read_strip.
 Print Assumptions fide_read_attr_perm.
 Print Assumptions fide_parse_rule_nary.
+
+(* an empty <var/> (no text) in a rule is a library error; the same rule with a text is read *)
+Example fide_read_empty_var :
+  fide_read (cex_doc [cex_feat [("name", "a")]] [Elem "rule" [] None [Elem "var" [] None []]])
+  = Err FlamaException
+  /\ is_ok (fide_read (cex_doc [cex_feat [("name", "a")]] [Elem "rule" [] None [Elem "var" [] (Some "a") []]]))
+     = true.
+Proof. split; vm_compute; reflexivity. Qed.
+Print Assumptions fide_read_empty_var.
